@@ -20,6 +20,7 @@ import (
 	"os"
 	"os/exec"
 	"path/filepath"
+	"runtime"
 	"strings"
 	"sync"
 
@@ -69,6 +70,7 @@ func c18Jobs(tier string) []Job {
 		jobs = append(jobs, Job{Name: "discarded-tx-non-interference @" + st, Run: func(r *Run) { c18NonInterference(r, st) }})
 	}
 	jobs = append(jobs, Job{Name: "repeat-and-after-unrelated", Run: c18Repeat})
+	jobs = append(jobs, Job{Name: "repeat-rejected-requests-free-running", Run: c18RejectedRepeat})
 	jobs = append(jobs, Job{Name: "race-pass", Run: c18RacePass})
 	jobs = append(jobs, Job{Name: "ast-scan", Run: c18AST})
 	return jobs
@@ -713,4 +715,69 @@ func init() {
 		}
 		return 0
 	}
+}
+
+// c18RejectedRepeat: requests that are wrong in SEVERAL ways at once (attestations with two or three
+// signatures that are each invalid for a different reason, in every order) are executed N times
+// with the Go scheduler free-running on several processors: response, error and events must be the
+// same every time.  Which of several errors is reported must not depend on scheduling.  (A
+// randomised differential like the race pass: it samples the runtime scheduler.)
+func c18RejectedRepeat(r *Run) {
+	prev := runtime.GOMAXPROCS(8)
+	defer runtime.GOMAXPROCS(prev)
+	n := 1500
+	if r.Tier == "thorough" {
+		n = 12000
+	}
+	scn := c18Scenario()
+	w := scn.Build(KindDB)
+	r.States++
+	m := InboundPlain(DomEth, 90, []byte("rejected in several ways"), nil)
+	good := Keys[0].SignRSV(m)
+	v2 := append([]byte{}, good...)
+	v2[64] = 2
+	other := Keys[1].SignRSV([]byte("another message"))
+	unknown := Keys[5].SignRSV(m)
+	zeros := make([]byte, 65)
+	ffs := bytes.Repeat([]byte{0xFF}, 65)
+	atoms := map[string][]byte{"zeros": zeros, "v=2": v2, "ff": ffs, "over-other-message": other, "unknown-key": unknown}
+	names := sortedKeys(atoms)
+	var reqs []Action
+	for _, a := range names {
+		for _, b := range names {
+			if a != b {
+				att := append(append([]byte{}, atoms[a]...), atoms[b]...)
+				reqs = append(reqs, MkReceive(UserB.Str, m, att, "plain(0,90) attestation=["+a+","+b+"]"))
+			}
+		}
+	}
+	own := RefMsg(0, Noble, DomEth, 3, pad32(UserA.Addr), distinct32(0x21), Zero32, []byte("x"))
+	reqs = append(reqs, MkReplaceMessage(UserA.Str, own, append(append([]byte{}, zeros...), v2...), []byte("y"), distinct32(0x23), "attestation=[zeros,v=2]"))
+	for _, a := range reqs {
+		first := ""
+		for i := 0; i < n; i++ {
+			o := w.Simulate(a)
+			r.Evaluations++
+			d := o.Digest()
+			if i == 0 {
+				first = d
+				r.Distinct(a.Desc + "|" + o.Class())
+				continue
+			}
+			if d != first {
+				x := scn.Replay("actions", []Action{a})
+				x.Expected, x.Observed = first, d
+				r.Violate("C18 the same rejected request is answered differently from run to run", fmt.Sprintf("%s: run 0 %q, run %d %q", a.Desc, cut(first, 160), i, cut(d, 160)), x)
+				break
+			}
+		}
+	}
+	r.Class("repeat-ok")
+}
+
+func cut(s string, n int) string {
+	if len(s) > n {
+		return s[:n] + "..."
+	}
+	return s
 }
